@@ -1106,6 +1106,17 @@ fn gen_val(r: &mut Sm, special: bool) -> f64 {
     }
 }
 
+thread_local! {
+    /// set while a "big" program is generated (generation only; execution reads the operation list)
+    static BIG: std::cell::Cell<bool> = const { std::cell::Cell::new(false) };
+}
+
+/// a row / column count: 1..=8 as the property quantifies, 9..=70 in the few "big" programs that
+/// look beyond it (size thresholds of blocked / tiled / bulk code paths)
+fn dim(r: &mut Sm) -> usize {
+    if BIG.with(|b| b.get()) { r.usize(9, 70) } else { r.usize(1, 8) }
+}
+
 fn gen_dims_for(r: &mut Sm, len: usize, want_valid: bool) -> (i32, i32) {
     for _ in 0..30 {
         let (a, b) = match r.below(6) {
@@ -1293,16 +1304,16 @@ fn gen_op(r: &mut Sm, tr: &Tracker, weights: &[u32; 6], p_fault: f64, special: b
     match cls {
         0 => match r.below(8) {
             0 | 1 => {
-                let (rr, cc) = (r.usize(1, 8), r.usize(1, 8));
+                let (rr, cc) = (dim(r), dim(r));
                 let len = if fault { r.usize(1, 40) } else { rr * cc };
                 let wv = r.chance(0.4);
                 let (a, b) = if fault { gen_dims_for(r, len, wv) } else if r.chance(0.3) { gen_dims_for(r, len, true) } else { (rr as i32, cc as i32) };
                 Op::New { data: (0..len).map(|_| Fb(gen_val(r, special))).collect(), r: a, c: b }
             }
-            2 => Op::Zeros { r: r.usize(1, 8), c: r.usize(1, 8) },
-            3 => Op::Ones { r: r.usize(1, 8), c: r.usize(1, 8) },
+            2 => Op::Zeros { r: dim(r), c: dim(r) },
+            3 => Op::Ones { r: dim(r), c: dim(r) },
             4 => Op::Eye { n: if r.chance(0.2) { r.usize(9, 64) } else { r.usize(1, 8) } },
-            5 => Op::WithShape { r: r.usize(1, 8), c: r.usize(1, 8) },
+            5 => Op::WithShape { r: dim(r), c: dim(r) },
             6 => Op::CloneM { m },
             _ => Op::NewVec { data: (0..if r.chance(0.15) { r.usize(11, 64) } else { r.usize(1, 10) }).map(|_| Fb(gen_val(r, special))).collect() },
         },
@@ -1420,10 +1431,12 @@ impl Prop for C15 {
         let weights = [1 + r.below(3) as u32, r.below(5) as u32 + 1, r.below(5) as u32, r.below(4) as u32, r.below(4) as u32, r.below(3) as u32];
         let p_fault = *r.pick(&[0.0, 0.1, 0.25, 0.5]);
         let special = r.chance(0.3);
-        let n = 1 + r.below(40) as usize;
+        let big = r.chance(0.03);
+        BIG.with(|b| b.set(big));
+        let n = if big { 1 + r.below(10) as usize } else { 1 + r.below(40) as usize };
         let mut ops = vec![];
         // start from one explicit matrix so that early ops have something to act on
-        let (rr, cc) = (r.usize(1, 8), r.usize(1, 8));
+        let (rr, cc) = (dim(&mut r), dim(&mut r));
         let sym = r.chance(0.15) && rr == cc;
         let mut data: Vec<f64> = (0..rr * cc).map(|_| gen_val(&mut r, special)).collect();
         let tri_nan = rr == cc && rr >= 2 && r.chance(0.04);
